@@ -380,7 +380,7 @@ def histories(draw, versions=T.VERSIONS, max_ops=30, invalid=True, controller=Tr
             if wake is not None and draw(st.booleans()):
                 ops.append({"op": "line", "text": frame((nid, 255, T.INTERNAL, 0, wake, "5"))})
     weights = dict(valid=62, near=10 if invalid else 0, raw=6 if invalid else 0, set=12 if controller else 0,
-                   fw=4 if ota else 0, metric=2, cb_raise=2 if cb_raise else 0, clock=2, wild=0, save=0, desire=3 if controller else 0, race=0)
+                   fw=4 if ota else 0, metric=2, cb_raise=2 if cb_raise else 0, clock=2, wild=0, save=0, desire=3 if controller else 0, race=0, confirm=2 if controller else 0)
     weights.update(op_weights or {})
     table = [k for k, w in weights.items() for _ in range(w)]
     for _ in range(n_ops):
@@ -416,6 +416,26 @@ def histories(draw, versions=T.VERSIONS, max_ops=30, invalid=True, controller=Tr
                 wake = T.wake_sub(version)
                 if wake is not None and draw(st.booleans()):
                     ops.append({"op": "line", "text": frame((nid, 255, T.INTERNAL, 0, wake, "7"))})
+        elif roll == "confirm":
+            # template: the node reports X, sleeps, the controller asks for Y, the node reports X AGAIN
+            # (an unchanged periodic report is still a report of that value type), then wakes up
+            cands = [(n, c) for n in pic.known_nodes() for c in pic.known_children(n)]
+            wake = T.wake_sub(version)
+            if cands and wake is not None:
+                nid, cid = draw(st.sampled_from(cands))
+                vt = draw(st.sampled_from([0, 1, 24, 3, 2]))
+                rule = T.payload_rule(version, T.SET, vt)
+                x, y = draw(conforming(rule)), draw(conforming(rule))
+                wline = frame((nid, 255, T.INTERNAL, 0, wake, "7"))
+                ops.append({"op": "line", "text": frame((nid, cid, T.SET, 0, vt, x))})
+                ops.append({"op": "line", "text": wline})
+                ops.append({"op": "set", "n": nid, "c": cid, "vt": vt, "value": y})
+                ops.append({"op": "line", "text": frame((nid, cid, T.SET, 0, vt, x))})
+                if draw(st.booleans()):
+                    ops.append({"op": "line", "text": frame((nid, cid, T.REQ, 0, vt, ""))})
+                ops.append({"op": "line", "text": wline})
+                if nid in pic.nodes and cid in pic.nodes[nid]:
+                    pic.nodes[nid][cid].add(vt)
         elif roll == "race":
             # template: a node with a pending desired value wakes up, and while its burst is being
             # queued the controller sets another value of the same child (see C01 race_set)
